@@ -52,9 +52,13 @@ func main() {
 		rule(c)
 		extra := map[string]interface{}{}
 		if *tier == "thorough" {
+			rules.VerifDir = *verif
 			rules.Thorough(c, *prop, seed, extra)
 		}
 		code = c.Finish(*verif, *tier, seed, t0, extra)
+		if rules.SelfValidationFailed {
+			code = 2
+		}
 	}()
 	os.Exit(code)
 }
